@@ -10,8 +10,8 @@ Third wave (alphabets in mc/domains/w3_c06.py):
   range ends - probed as an inside or an outside temperature according to the
   side of the (common) range it falls on;
 * temperature ARRAYS (float; integer dtype when the values are whole numbers;
-  the outside element first, last, or after two inside ones; a fresh array per
-  call) are given to get_CpoR of every object that has a range - raw-data,
+  the outside element at every position of every length 2..4 and at every cell
+  of a 2x2 grid - sixth wave, C06-m17; a fresh array per call) are given to get_CpoR of every object that has a range - raw-data,
   incomplete and group correlations, shipped groups, estimates - not only to
   ThermochemRawData;
 * family Z: correlations without a heat-capacity table (control: a one-point
@@ -275,7 +275,19 @@ def judge(R, tag, obj, rng, knots, tref, cons, wit, expect_data, special=(),
         for T in outside:
             R.evals += 1
             R.nontrivial += 1
-            arrs = [np.array([mid, T]), np.array([T, mid]), np.array([mid, mid, T])]
+            # (sixth wave) the outside element at EVERY position of every
+            # length 2..4 (an interior position of an unsorted array is what
+            # an "ends only" test misses), and at every cell of a 2x2 grid
+            arrs = []
+            for n in (2, 3, 4):
+                for pos in range(n):
+                    a = [mid] * n
+                    a[pos] = T
+                    arrs.append(np.array(a))
+            for pos in range(4):
+                a = [mid] * 4
+                a[pos] = T
+                arrs.append(np.array(a).reshape(2, 2))
             if float(T).is_integer() and rng[0] <= math.floor(mid) <= rng[1]:
                 arrs.append(np.array([int(math.floor(mid)), int(T)], dtype=int))
                 arrs.append(np.array([int(T), int(math.floor(mid))], dtype=int))
